@@ -42,7 +42,7 @@ def run(ctx):
     cyc = sum(1 for r in results if not r["ok"])
     while pos < len(results):
         chunk = results[pos:pos + shard]
-        while chunk:
+        while chunk and len(ctx.violations) < 25:
             tp = os.path.join(ctx.work, "trace.ndjson")
             write_ndjson(tp, chunk)
             tr = ctx.tlc_trace("Trace_BuildOrder", "Trace_BuildOrder", tp, name="trace%d" % pos)
